@@ -81,6 +81,14 @@ def oracle_detail(case, impl_line):
         if op[0] != 'sni':
             if cur == ['PANIC']:
                 return 'panic in %s at step %d' % (op[0], i), None
+            if op[0] == 'push':
+                # adding an element must not disturb the output order of the elements that are already placed either
+                els0 = ml.all_elements(prev[0])
+                placed0 = {(t, n) for (t, n, u) in els0 if u != 0}
+                a = [tuple(x) for x in prev[1] if tuple(x) in placed0]
+                b = [tuple(x) for x in cur[1] if tuple(x) in placed0]
+                if a != b:
+                    return 'step %d (push): relative order of already placed elements changed: %s -> %s' % (i, a[:12], b[:12]), None
             continue
         pstate, porder = prev[0], prev[1]
         of = overflow_predicted(pstate)
